@@ -322,9 +322,14 @@ def _get_cvar_weights_from_percentile(
     # nan values are sorted to the end, drop them:
     indices = indices[: np.count_nonzero(~failed_realizations)]
 
+    if indices.size == 0:
+        # No successful realizations: no weights can be assigned.
+        return np.zeros(values.size)
+
     p_max = 1.0 / indices.size
     n_var = int(percentile * indices.size)
-    p_var = percentile - n_var * p_max
+    # Guard against a (tiny) negative remainder due to rounding:
+    p_var = max(percentile - n_var * p_max, 0.0)
 
     weights = np.zeros(values.size)
     weights[indices[:n_var]] = p_max
